@@ -48,6 +48,15 @@ func c19Tree(c *C19Case) *wvlib.Build {
 		add(wvlib.BEntry{Path: "abs-link", Kind: 'l', Dest: "/abs/olute"})
 		add(wvlib.BEntry{Path: "top/dir-link", Kind: 'l', Dest: "mid"})
 		add(wvlib.BEntry{Path: "empty.bin", Kind: 'f'})
+		// names a path filter may misjudge: components that merely START with dots (a ConfigMap-volume layout among them)
+		add(wvlib.BEntry{Path: "..2026_09_26/config.yaml", Kind: 'f', Data: r.Bytes(40)})
+		add(wvlib.BEntry{Path: "..data", Kind: 'l', Dest: "..2026_09_26"})
+		add(wvlib.BEntry{Path: "config.yaml", Kind: 'l', Dest: "..data/config.yaml"})
+		add(wvlib.BEntry{Path: "...", Kind: 'f', Data: r.Bytes(3)})
+		add(wvlib.BEntry{Path: "..gitkeep", Kind: 'f'})
+		add(wvlib.BEntry{Path: "top/..cache/x", Kind: 'f', Data: r.Bytes(5)})
+		add(wvlib.BEntry{Path: ".hidden", Kind: 'f', Data: r.Bytes(1)})
+		add(wvlib.BEntry{Path: "v1..2", Kind: 'd'})
 		// contents a copy loop may treat specially: runs of zero bytes (sparse / pre-allocated files) at the start,
 		// in the middle and at the END of files whose sizes are and are not multiples of the usual buffer sizes
 		const K = 32 * 1024
